@@ -52,7 +52,7 @@ def check_release(ctx, sc):
             got.append("EOF" if b == b"" else "TIMEOUT")
         else:
             got.append({1: "RQ", 2: "AC", 3: "RJ", 4: "PDATA", 5: "RELRQ", 6: "RELRP", 7: "ABORT"}.get(b[0], "?"))
-    where = "idle" if not in_handler else f"during-{sc['meta']['last_kind']}-handler"
+    where = f"after-{sc['meta']['last_kind'] or 'no'}-request"
     if "AC" not in got:
         raise HarnessError(f"association was not accepted: {got}")
     if "ABORT" in got:
